@@ -2,6 +2,7 @@ import Driver.C01
 import Model.MuxPipe
 import Model.PoolLock
 import Model.MuxExec
+import Model.CtlBeat
 namespace Driver.C06
 open Util
 
@@ -304,6 +305,23 @@ def exAnswer (proto wr : String) (steps : List String) : String :=
       " ".intercalate (xs.out.reverse ++ flags ++ [";"] ++ outs)
   | _, _ => "bad-op"
 
+/-! ### `hb`: controlConn.close() against the heartbeat loop -/
+
+def hbAnswer (proto when fate : String) : String :=
+  match proto.toNat?, when.toNat? with
+  | some p, some w =>
+    if p < 2 ∨ p > 4 ∨ w > 1 ∨ ¬ (["s", "e", "n", "z"].contains fate) then "bad-op" else
+    let beat : List CtlBeat.Act := if fate = "s" then [.beatOk] else [.beatFail, .reconnect]
+    let acts : List CtlBeat.Act :=
+      if w = 0 then [.hbStart, .closeCas, .takeQuit, .closeConn]
+      else [.hbStart, .timer, .closeCas] ++ beat ++ [.takeQuit, .closeConn]
+    match CtlBeat.run CtlBeat.init acts with
+    | some st =>
+      if st.cl = .done ∧ st.hb = .exited then s!"ret hb=exited conn={if st.connClosed then "closed" else "open"}"
+      else "closer-stuck"
+    | none => "closer-stuck"
+  | _, _ => "bad-op"
+
 /-! ### `cf` / `cfk`: closing over transports whose Close() reports an error -/
 
 def cfAnswer (kf : Bool) (ws : List String) : String :=
@@ -345,6 +363,7 @@ def step (s : S) (ws : List String) : S × String :=
   match ws with
   | "jr" :: proto :: wr :: tmo :: steps => (s, jrAnswer proto wr tmo steps)
   | "ex" :: proto :: wr :: steps => (s, exAnswer proto wr steps)
+  | ["hb", proto, when, fate] => (s, hbAnswer proto when fate)
   | "cf" :: rest => (s, cfAnswer false rest)
   | "cfk" :: rest => (s, cfAnswer true rest)
   | _ => Driver.C01.step s ws
